@@ -496,6 +496,20 @@ def _toolchain_id():
     return _toolchain_id.v
 
 
+def _store(cpath, result):
+    """Atomic, race-tolerant cache write (several checks may compute the same key concurrently)."""
+    tmp = f'{cpath}.{os.getpid()}.tmp'
+    try:
+        with open(tmp, 'w', encoding='utf-8') as fh:
+            json.dump(result, fh)
+        os.replace(tmp, cpath)
+    except OSError:
+        try:
+            os.unlink(tmp)
+        except OSError:
+            pass
+
+
 def reorder_pairs(stderr):
     """Member pairs of -Wreorder warnings: [initialised-later-in-list, declared-later]."""
     import re  # pylint: disable=import-outside-toplevel
@@ -559,9 +573,7 @@ def run_sources(src, env_extra=None, timeout=600, main='driver.cc', extra_flags=
                     except ValueError:
                         result['lines'].append({'prop': 'LAB', 'group': 'unparsable-output', 'subject': line[:80],
                                                 'ok': False, 'detail': ''})
-        with open(cpath + '.tmp', 'w', encoding='utf-8') as fh:
-            json.dump(result, fh)
-        os.replace(cpath + '.tmp', cpath)
+        _store(cpath, result)
         return result
     except subprocess.TimeoutExpired:
         return {'compiled': False, 'compile_error': 'lab timeout', 'exit': None, 'lines': [], 'stderr': 'timeout'}
